@@ -414,7 +414,8 @@ class FromArgs(Generic[T]):
 
     def __setitem__(self, i: int, arg: T) -> None:
         if i in self._i_to_arg:
-            assert self._i_to_arg[i] == arg
+            # Compare by key, so that a NaN is the same as itself and 1 is not True
+            assert self._hash_fn(self._i_to_arg[i]) == self._hash_fn(arg)
         self._i_to_arg[i] = arg
         self._arg_to_i[self._hash_fn(arg)] = i
 
